@@ -332,6 +332,8 @@ def draw_scale(rng, geo, h_slot, m, inplace, out):
         f, ref = 1, None
     o = {"op": "scale", "on": h_slot, "factor": f, "ref": ref, "inplace": inplace, "out": out}
     _own_ref(rng, geo, o, m, lambda r: m.scale(f, r))
+    if rng.random() < 0.15:
+        o["positional"] = True
     if isinstance(f, list):
         r = rng.random()
         if r < 0.2:
@@ -358,6 +360,8 @@ def draw_rotate(rng, geo, h_slot, m, inplace, out, kmax=9):
     if rng.random() < 0.1:
         o["knp"] = rng.choice(["int64", "int32"])  # "all integer k": a numpy integer is one
     _own_ref(rng, geo, o, m, lambda r: m.rotate90(ia, ib, k, r))
+    if rng.random() < 0.15:
+        o["positional"] = True
     return o
 
 
